@@ -57,7 +57,7 @@ def _java_cmd(module, cfg, workers, extra, heap):
     # many single-worker JVMs run side by side during trace validation: a parallel collector with
     # 16 GC threads each makes them thrash, so small runs use the serial collector
     gc = "-XX:+UseSerialGC" if str(workers) == "1" else "-XX:+UseParallelGC"
-    return ["java", gc, "-XX:TieredStopAtLevel=1" if str(workers) == "1" else "-XX:+TieredCompilation",
+    return ["java", gc, "-Xss64m", "-XX:TieredStopAtLevel=1" if str(workers) == "1" else "-XX:+TieredCompilation",
             f"-Xmx{heap}", "-cp", JAR, "tlc2.TLC",
             "-config", cfg, "-workers", str(workers), "-noGenerateSpecTE", *extra, module]
 
@@ -92,6 +92,12 @@ def run_tlc(module: str, cfg: str | None = None, workers: int | str = "auto",
     v = _VIOL.search(out)
     if v:
         res.violated = v.group(1) or v.group(2) or v.group(0)
+    eval_err = re.search(r"StackOverflowError|TLC threw an unexpected exception|Attempted to |"
+                         r"was not in the domain|evaluating the expression|"
+                         r"The exception was a|is not a valid|non-enumerable", out)
+    if eval_err:
+        i = out.find("Error:")
+        raise TlcError(f"TLC evaluation error on {module}/{cfg}: {out[max(0, i):i + 1500]}")
     sem_err = ("Semantic error" in out or "Parsing or semantic analysis failed" in out
                or "***Parse Error***" in out or "TLC threw an unexpected exception" in out
                or "Error: TLC" in out and v is None)
@@ -280,6 +286,41 @@ def validate_traces(module: str, traces: list, cfg: str | None = None, jobs: int
     return Validation(traces=n, events=sum(len(t["ev"]) for t in traces), states=states,
                       rejects=sorted(rejects, key=lambda x: x.index), wall_s=time.time() - t0,
                       stdout_tail=tail)
+
+
+_BADROW = re.compile(r'<<\s*"BADROW",\s*(\d+),\s*"([^"]*)"\s*>>')
+
+
+def _table_one(module, rows, offset, timeout, heap):
+    fd, path = tempfile.mkstemp(prefix="rows_", suffix=".json")
+    with os.fdopen(fd, "w") as fh:
+        json.dump(rows, fh, separators=(",", ":"))
+    try:
+        r = run_tlc(module, "Table.cfg", workers=1, env={"TRACE_FILE": path}, timeout=timeout,
+                    heap=heap)
+    finally:
+        os.unlink(path)
+    if "TABLE-CHECKED" not in r.stdout:
+        raise TlcError(f"table validation of {module} did not complete:\n{r.stdout[-3000:]}")
+    bad = []
+    for raw in r.printed:
+        m = _BADROW.match(re.sub(r"\s+", " ", raw))
+        if m:
+            bad.append((offset + int(m.group(1)) - 1, m.group(2)))
+    return bad
+
+
+def check_table(module: str, rows: list, jobs: int = 6, timeout: int = 1800, heap: str = "3g"):
+    """rows judged one by one by a Table_* module; returns [(row index, reason), ...]."""
+    t0 = time.time()
+    jobs = max(1, min(jobs, 6, len(rows)))
+    per = (len(rows) + jobs - 1) // jobs
+    chunks = [(i, rows[i:i + per]) for i in range(0, len(rows), per)]
+    bad = []
+    with ThreadPoolExecutor(max_workers=jobs) as ex:
+        for f in [ex.submit(_table_one, module, ch, off, timeout, heap) for off, ch in chunks]:
+            bad.extend(f.result())
+    return sorted(bad), time.time() - t0
 
 
 def sany(module: str) -> None:
